@@ -479,7 +479,7 @@ def penalize(A: spmatrix,
         scale = np.linalg.norm(d[D], np.inf) if len(D) > 0 else 0.
         if scale == 0.:
             # constrained rows without (diagonal) entries
-            scale = abs(Aout).max() if Aout.nnz > 0 else 0.
+            scale = abs(Aout.tocsr()).max() if Aout.nnz > 0 else 0.
         if scale == 0.:
             scale = 1.
         epsilon = 1e-10 / float(scale)
